@@ -83,6 +83,9 @@ func TestC09(t *testing.T) {
 	cases = append(cases, c09ChainCases(r, rnd)...)
 	cases = append(cases, c09LoopCases(r, rnd)...)
 
+	for i := 0; i < r.Pick(3, 30); i++ {
+		cases = append(cases, mon.CaseSpec{Name: "slow-receiver", Spec: c09Spec{Kind: "slow", TTL: i % 3}})
+	}
 	// interleave the cheap and the expensive cases across shards (deterministic shuffle)
 	rnd.Shuffle(len(cases), func(i, j int) { cases[i], cases[j] = cases[j], cases[i] })
 
@@ -101,6 +104,8 @@ func TestC09(t *testing.T) {
 			c09Chain(c, sp)
 		case "loop":
 			c09Loop(c, sp)
+		case "slow":
+			c09Slow(c, sp)
 		default:
 			panic(fmt.Sprintf("c09: kind %q", sp.Kind))
 		}
